@@ -25,6 +25,11 @@ use ckb_systemtime::unix_time_as_millis;
 use log::{debug, error, info, log_enabled, trace, warn, Level};
 
 mod components;
+/// Access to the difficulty checks for the verification harness.
+#[cfg(ckb_light_client_verif)]
+pub(crate) mod verif_access {
+    pub(crate) use super::components::{verify_tau, verify_total_difficulty};
+}
 pub mod constant;
 mod peers;
 pub(crate) mod prelude;
